@@ -11,6 +11,7 @@ import OFV.Proofs.C18Binary
 import OFV.Proofs.C18Tpb
 import OFV.Proofs.C18Partition
 import OFV.Proofs.C18Pauli
+import OFV.Proofs.C18Async
 
 namespace OFV.C18
 open OFV.Model.C18 OFV.Spec.C18 OFV.Proofs.C18
@@ -102,6 +103,16 @@ theorem binary_partition_spec (l : List Nat) (hnd : l.Nodup) (h2 : 2 ≤ l.lengt
 example : ∃ ys, binaryPartition [4, 7, 1, 9, 3] none = some ys ∧
     splitsAll [4, 7, 1, 9, 3] 2 (ys.map (fun p => [p.1, p.2])) = true :=
   binary_partition_spec _ (by decide) (by decide)
+
+/-- `_asynchronous_iter`, padded (general) branch, any number of iterators of any lengths: any two
+results of two different iterators occur together in some yield.  The index pattern `(j·k + l) mod L'`
+is a family of Latin squares because the padding `L'` (see `get_padding_spec`) has no divisor in
+`[2, K−1)`, so every difference of two row indices is invertible mod `L'`.
+Full statement (open): the same for `_asynchronous_iter` itself, i.e. also for the
+`_asynchronous_iter_small_lists` branch and the single-entry edge case (checked by the Spec oracle). -/
+theorem async_iter_covers_partial (lists : List (List (Pairing L))) :
+    asyncCovers lists (asyncPadded lists) = true :=
+  OFV.Proofs.C18Async.asyncPadded_covers lists
 
 /-- `partition_iterator(qubit_list, k)` (default number of iterations), every list length and every
 `1 ≤ k ≤ n`: every yield is a `k`-partition of the qubits and every `k`-subset is perfectly split (one
